@@ -21,11 +21,48 @@ let show_val = function
   | VStr s -> hex s
   | _ -> "?"
 let show_trace tr = "[" ^ String.concat " " (List.map (fun (Ev (id, args)) ->
-    Printf.sprintf "%d:%s" (int_of_n id) (String.concat "," (List.map show_val args))) tr) ^ "]"
+    let id = int_of_n id in
+    if id >= 200 then Printf.sprintf "%d:%d:%s" id (List.length args) (String.concat "," (List.map show_val args))
+    else Printf.sprintf "%d:%s" id (String.concat "," (List.map show_val args))) tr) ^ "]"
+let unhex s = List.init (String.length s / 2) (fun i -> n_of_int (int_of_string ("0x" ^ String.sub s (2*i) 2)))
+let run_prog = function
+  | None -> print_string "COMPILE-ERROR"
+  | Some prog ->
+    (match eval (fun _ -> []) (nat_of_int 3) prog [] [] with
+     | ((RVal [VInt r; er], _), tr) -> Printf.printf "ret=%d,%s\ttrace=%s" (int_of_z r) (chain er) (show_trace tr)
+     | ((RPanic v, _), tr) -> Printf.printf "panic=%s\ttrace=%s" (chain v) (show_trace tr)
+     | ((RStuck, _), _) -> print_string "STUCK"
+     | _ -> print_string "OTHER")
 let () =
   try while true do
     let line = input_line stdin in
     (match String.split_on_char ' ' line with
+     | "shape" :: kind :: pos :: failing :: callee :: args ->
+       (* a wrapped call with arguments: "shape <bang|quest|default> <stmt|define> <0|1> <va|vi|two|m|e|f1|f0> arg*"
+          arg: i<int> | s<hex> | N! | N?: (nested f1()! / f1()?:42) | P<id>,<int> (probe) ; spreads arrive flattened *)
+       let k = (match kind with "bang" -> KBang | "quest" -> KQuest | _ -> KDefault (EConst (VInt (z_of_int 42)))) in
+       let p = (if pos = "stmt" then PStmt else PDefine) in
+       let e = if failing = "1" then VErr (Some (EBase (n_of_int 1))) else VErr None in
+       let f1call = ECallP (n_of_int 1, [VInt (z_of_int 5); e]) in
+       let arg a =
+         let rest = String.sub a 1 (String.length a - 1) in
+         (match a.[0] with
+          | 'i' -> EConst (VInt (z_of_int (int_of_string rest)))
+          | 's' -> EConst (VStr (unhex rest))
+          | 'N' -> if rest = "!" then lower_closure KBang f1call [VInt Z0]
+                   else lower_closure (KDefault (EConst (VInt (z_of_int 42)))) f1call [VInt Z0]
+          | 'P' -> (match String.split_on_char ',' rest with
+                    | [id; v] -> EProbe (n_of_int (int_of_string id), EConst (VInt (z_of_int (int_of_string v))))
+                    | _ -> failwith "bad probe")
+          | _ -> failwith "bad arg") in
+       let args = List.map arg (List.filter (fun s -> s <> "") args) in
+       let (id, vals, zs) = (match callee with
+         | "va" -> (200, [], []) | "e" -> (204, [], [])
+         | "vi" -> (201, [VInt (z_of_int 5)], [VInt Z0]) | "two" -> (202, [VInt (z_of_int 5)], [VInt Z0])
+         | "m" -> (203, [VInt (z_of_int 5)], [VInt Z0])
+         | "f1" -> (1, [VInt (z_of_int 5)], [VInt Z0]) | _ -> (0, [], [])) in
+       let x = if id >= 200 then ECallA (n_of_int id, args, vals @ [e]) else ECallP (n_of_int 1, vals @ [e]) in
+       run_prog (case_prog k x zs p)
      | [kind; n; pos; failing] ->
        let n = int_of_string n in
        let k = (match kind with "bang" -> KBang | "quest" -> KQuest | _ -> KDefault (EConst (VInt (z_of_int 42)))) in
